@@ -12,9 +12,15 @@ sys.path.insert(0, os.path.dirname(os.path.abspath(__file__)))
 import compat  # noqa: E402,F401
 from compat import VERIF  # noqa: E402
 
-CLAIMED = ['C01', 'C04', 'C05', 'C08', 'C10', 'C11', 'C12', 'C13', 'C14', 'C15', 'C16', 'C17', 'C18', 'C19', 'C20']
+CLAIMED = ['C01', 'C03', 'C04', 'C05', 'C08', 'C10', 'C11', 'C12', 'C13', 'C14', 'C15', 'C16', 'C17', 'C18', 'C19', 'C20']
 
-PENDING = {}
+PENDING = {
+    'C02': 'machinery under construction (model of the writers + round-trip proofs on top of C01_faithful); not claimed until its theorems are proved and its correspondence is green',
+    'C03': 'interpreter model, driver and correspondence are complete and green (model = real engine byte for byte on the golden styles); the per-built-in / ordering / scoping theorems are being proved; not claimed before',
+    'C06': 'engine front-end model, driver and correspondence are complete and green; the aux-equivalence / frame / one-item theorems are being proved; not claimed before',
+    'C07': 'template-evaluator + pipeline model, template serialiser, driver and correspondence are complete and green; the completeness / order / label / coverage theorems are being proved; not claimed before',
+    'C09': 'machinery under construction (backend models on top of the C08 rich-text model); not claimed until its theorems are proved and its correspondence is green',
+}
 DEFAULT_REASON = 'check not built yet (work in progress; DESIGN.md section 6 gives the build order); not claimed at any weaker level'
 
 BASELINE_CMD = 'cd /repo && /venv/bin/python -m pytest -ra -q -p no:cacheprovider --timeout=900 --continue-on-collection-errors'
